@@ -18,7 +18,7 @@ CLAIMED = {
  "C06": ("exploration", DST + "sequential-map refinement after every valid/invalid catalogue command",
          "Every response of every catalogue command is predicted by a sequential map model; failed commands change nothing; deletes cascade; no handler panic; periodic full audits of every listing and entity by id and by name.", "binary protocol and HTTP arm as for C05; 10% of the runs inject errors on the state journal (open known finding @journal_fault, DESIGN 10)", "4.C06"),
  "C07": ("exploration", DST + "consumer-offset histories over consumer x group x partition identities vs. map model",
-         "store/get/delete/poll-next/auto-commit/purge/group-deletion/restart with identities chosen so that a consumer and a group share a numeric id; crash durability of offset files is part of C04.", "named consumers resolved with the same hash the server uses", "4.C07"),
+         "store/get/delete/poll-next/auto-commit/purge/group-deletion/restart with identities chosen so that a consumer and a group share a numeric id; a group member's requests without a partition id are resolved to the partition its last poll was served from and follow that poll at once; crash durability of offset files is part of C04.", "named consumers resolved with the same hash the server uses", "4.C07"),
  "C08": ("exploration", DST + "join/leave/disconnect/heartbeat-expiry/partition add+remove with several connections; assignment invariants and group-wide exactly-once",
          "After every membership or partition-count event the assignment reported by get_consumer_group is checked (exclusive, complete, even); member polls are served from their share in rotation; next+auto-commit slices equal the model (no repeat, no hole).", "heartbeat expiry driven by the simulated clock and the real VerifyHeartbeatsExecutor", "4.C08"),
  "C09": ("exploration", DST + "sessions x users x swarm-generated permission records, updates interleaved with requests, unauthenticated raw requests, rule-level probes on the real Permissioner",
@@ -26,7 +26,7 @@ CLAIMED = {
  "C10": ("exploration", DST + "credential life-cycle histories with clock jumps and restarts; byte scan of every file for secrets",
          "Login outcomes (password, personal access tokens: right/wrong/stale/expired/other user's/deleted) follow a validity model before and after restarts; after every audit all files are scanned for every password and raw token (plain, base64, UTF-16).", "HTTP arm (30% of runs): root logs in over HTTP with its current password; tokens never issued, tampered or revoked by logout must be refused; JWT expiry/refresh not simulated", "4.C10"),
  "C11": ("exploration", DST + "concurrent journalling under I/O-granular seeded schedules with injected append failures, then every byte flip / truncation / entry permutation of the harvested journal through the real loader",
-         "(a) 2-4 clients issue journalled commands concurrently (purge under the shared lock), with and without injected open/write/fsync failures on the state log; the journal must load with consecutive indices and the server must start from it. (b) exhaustive single-byte mutations, truncation lengths and entry permutations of small journals (sampled for large ones): the loader reports them or returns a prefix only for the loss of a whole suffix; never a panic, never another history.", "length fields are only mutated in their low three bytes (the loader allocates what they announce)", "4.C11"),
+         "(a) 2-4 clients issue journalled commands concurrently (purge under the shared lock), with and without injected open/write/fsync failures on the state log; the journal must load with consecutive indices and the server must start from it. (b) exhaustive single-byte mutations, truncation lengths and entry permutations of small journals (sampled for large ones): the loader reports them or returns a prefix only for the loss of a whole suffix; never a panic, never another history, and never a single allocation request above 64 MiB while a tampered journal loads (allocation-size probe in the process allocator: a failed allocation aborts).", "the journals are those a short concurrent workload produces (a few KiB); commands are the journalled kinds the workload issues (create/delete/update/purge of streams, topics, users)", "4.C11"),
  "C12": ("exploration", DST + "N producers + M pollers + flusher + saver + evictor on one partition under seeded schedules; history predicates",
          "Batch-contiguous interleaving, per-producer order, nothing lost/twice, every poll a contiguous run equal to the final log, no partial batch visible, acknowledged-under-wait implies visible (event sequence numbers).", "in 40% of the runs file writes are handed over and completed later by a simulator-scheduled task, as tokio's File does (hook H11); lock acquisitions are scheduling points (hook H10)", "4.C12"),
  "C13": ("exploration", DST + "every exchange real SDK encoder -> simulated byte stream -> real server decoder/handler -> real SDK decoder compared with the model under a value swarm; malformed frames from a raw connection",
@@ -34,7 +34,7 @@ CLAIMED = {
  "C14": ("exploration", DST + "expiring topics, clock jumps on both sides of the expiry, maintenance passes, expiry updates, restarts",
          "After each real maintenance pass the vanished offsets must be whole closed segments whose newest message was expired at pass time (or legal size clean-up); open segments and never-expiring topics lose nothing; current offset unchanged; traffic and restarts continue against the model.", "segment boundaries before a pass are read through the introspection hook H9", "4.C14"),
  "C15": ("exploration", DST + "size-limited topics, delete-oldest on/off, limit updates, maintenance passes",
-         "Sends at/above the limit (as reported by the server itself) with deletion disabled are refused with TopicFull and store nothing; otherwise accepted; size clean-up removes at most the oldest closed segment per partition; limits below one segment are rejected on create and update.", "", "4.C15"),
+         "Sends at/above the limit (as reported by the server itself) with deletion disabled are refused with TopicFull and store nothing; otherwise accepted; size clean-up removes at most the oldest closed segment per partition; limits below one segment are rejected on create and update. The size figure the limit is compared with is itself checked (C16's oracles run inside C15's scenarios: model ground truth, sum hierarchy, equality across restarts), with server-side encryption in a quarter of the runs.", "", "4.C15"),
  "C16": ("exploration", DST + "reported counts/sizes vs. ground truth from the model after every step, sum hierarchy, restart invariance",
          "get_topic/get_stream/get_topics figures equal the retained-message counts of the model and the sums over children; identical across restarts (byte sizes compared when nothing is buffered); zero after purge.", "get_stats counts are compared when a run issues it (sysinfo is slow)", "4.C16"),
  "C17": ("exploration", DST + "balanced / partition-id / key sends interleaved with partition add/remove; where each unique message lands",
